@@ -185,6 +185,17 @@ func FormatUint(v uint64, base int) string {
 type VFSError struct {
 	Op, Path, Msg string
 	NotExist      bool
+	Exist         bool
+}
+
+func (e *VFSError) Unwrap() error {
+	switch {
+	case e.NotExist:
+		return fs.ErrNotExist
+	case e.Exist:
+		return fs.ErrExist
+	}
+	return nil
 }
 
 func (e *VFSError) Error() string { return e.Op + " " + e.Path + ": " + e.Msg }
@@ -211,4 +222,23 @@ func (i VFileInfo) Mode() fs.FileMode {
 }
 func (i VFileInfo) ModTime() time.Time { return time.Time{} }
 
+func (i VFileInfo) Type() fs.FileMode          { return i.Mode().Type() }
+func (i VFileInfo) Info() (fs.FileInfo, error) { return i, nil }
+
 var _ fs.FileInfo = VFileInfo{}
+var _ fs.DirEntry = VFileInfo{}
+
+// CRC32Update replaces hash/crc32.update: bitwise and branch-free, so that a
+// checksum over symbolic bytes is one term instead of a 256-way fork per table
+// lookup.  The (reflected) polynomial is entry 128 of the table.
+func CRC32Update(crc uint32, tab *[256]uint32, p []byte) uint32 {
+	poly := tab[128]
+	crc = ^crc
+	for _, b := range p {
+		crc ^= uint32(b)
+		for i := 0; i < 8; i++ {
+			crc = (crc >> 1) ^ (poly & -(crc & 1))
+		}
+	}
+	return ^crc
+}
